@@ -97,6 +97,7 @@ def run(res, tier):
             desc = repr(reg)
             try:
                 reg.fit(X, n_inputs=nu, episode_feature=True)
+                common.note_case('fit', repr(reg), X)
             except Exception as e:  # noqa  (degenerate truncations the estimator itself rejects)
                 dist['fit_rejected'] = dist.get('fit_rejected', 0) + 1
                 continue
